@@ -69,6 +69,15 @@ class Snapping(LaplaceTruncated):
 
         return epsilon, delta
 
+    @classmethod
+    def _check_bounds(cls, lower, upper):
+        lower, upper = super()._check_bounds(lower, upper)
+
+        if not np.isfinite(upper - lower):
+            raise ValueError("Bounds must be finite, as the noise is calibrated to the width of the domain")
+
+        return lower, upper
+
     def _scale_bound(self):
         """
         Scales the lower and upper bounds to be proportionate to sensitivity 1, and symmetrical about 0.
